@@ -82,7 +82,9 @@ class Fixture:
         rng = random.Random(seed)
         self.base = scratch_dir("c18").encode()
         self.rng = rng
-        fname = rng.choice([b"plain.txt", b"sp ace", b"non-utf8-\xff\xfe", b"\xc3\xa9t\xc3\xa9", b"-dash"])
+        fname = rng.choice([b"plain.txt", b"sp ace", b"non-utf8-\xff\xfe", b"\xc3\xa9t\xc3\xa9", b"-dash", b"notes:2020.txt", b"http:x"])
+        if seed % 7 == 0:
+            fname = b"notes:2020.txt"   # (the first fixture of every run: a name that looks like a URL scheme)
         self.file = os.path.join(self.base, fname)
         self.file_data = bytes(rng.randrange(256) for _ in range(rng.choice([0, 5, 100, 40000])))
         with open(self.file, "wb") as f:
@@ -96,7 +98,9 @@ class Fixture:
         self.spec["entries"].append([hx(b"zsub"), {"t": "dir", "entries": [[hx(b"zsub"), {"t": "dir", "entries": [[hx(b"deep"), {"t": "file", "mode": 0o755, "seed": 2, "size": 9}]]}], [hx(b"dup"), {"t": "file", "mode": 0o644, "seed": 1, "size": 3}]]}])
         self.patterns = [[b".*"], [b"zsub"], [b"*sub"], [b".hid", b"zsub/zsub"], [b"nomatch*"], [b"z*"], [b".*", b"*sub"]][seed % 7]
         self._keep_files_clear_of_patterns(self.spec, b"")
-        self.dir = os.path.join(self.base, rng.choice([b"tree", b"tr ee", b"tree-\xff"]))
+        self.dir = os.path.join(self.base, rng.choice([b"tree", b"tr ee", b"tree-\xff", b"backup:old"]))
+        if seed % 7 == 0:
+            self.dir = os.path.join(self.base, b"backup:old")
         fs.materialise(self.spec, self.dir)
         # links, half of the time through a chain of links (relative and absolute hops mixed)
         self.link_file = os.path.join(self.base, b"lnk-file")
@@ -319,13 +323,13 @@ def _tolerant_runner():
     _PATCHED["done"] = True
 
 
-def real_command_line(fx, a, stdin=None):
+def real_command_line(fx, a, stdin=None, cwd=None):
     """the same invocation through `python -m swh.model.cli` (thorough tier sample)"""
     import subprocess
     from common import REPO
 
     env = dict(os.environ, PYTHONPATH=REPO, PYTHONWARNINGS="ignore")
-    p = subprocess.run(["/venv/bin/python", "-m", "swh.model.cli"] + [os.fsencode(x) for x in a], input=stdin, stdout=subprocess.PIPE, stderr=subprocess.PIPE, env=env)
+    p = subprocess.run(["/venv/bin/python", "-m", "swh.model.cli"] + [os.fsencode(x) for x in a], input=stdin, stdout=subprocess.PIPE, stderr=subprocess.PIPE, env=env, cwd=cwd)
     return p.returncode, p.stdout, p.stderr
 
 
@@ -441,12 +445,21 @@ def check_cases(ctx, cases):
         ctx.count("kind=" + case["kind"])
         kind = case["kind"]
         obj = "-" if kind == "stdin" else (fx.url if kind == "url" else os.fsdecode(fx.path_of(kind)))
+        rel_cwd = None
         if kind not in ("stdin", "url"):
             if "via" not in case:
                 case["via"] = (case["fixture"] + len(canon_key(case))) % 3 == 0
             if case["via"]:
                 obj = os.fsdecode(os.path.join(fx.base, b"hop", b"via", b"..", os.path.basename(fx.path_of(kind))))
                 ctx.count("path-through-symlink-dotdot")
+            # ... or by its bare name, from the directory that holds it (names may look like options or URLs: the
+            # former are the caller's business — skipped —, the latter are still files)
+            if "rel" not in case:
+                case["rel"] = (not case["via"]) and (case["fixture"] + len(canon_key(case))) % 3 == 1
+            if case["rel"] and not os.path.basename(fx.path_of(kind)).startswith(b"-"):
+                obj = os.fsdecode(os.path.basename(fx.path_of(kind)))
+                rel_cwd = fx.base
+                ctx.count("path-relative")
         args = run_cli(fx, case)
         exp = local_expected(case)
         # the SWHID of the designated object, computed independently of the command
@@ -480,11 +493,14 @@ def check_cases(ctx, cases):
             # not a core SWHID: wrong scheme version, upper-case hex, an extended type, qualifiers, a short id
             bad = ["swh:2:cnt:" + "0" * 40, "swh:1:cnt:" + "A" * 40, "swh:1:ori:" + "0" * 40, "swh:1:cnt:" + "0" * 40 + ";lines=1", "swh:1:cnt:" + "0" * 39, "cnt", ""]
             verify_arg = bad[(case["fixture"] + len(canon_key(case))) % len(bad)]
-        res_cli = invoke(fx, case, args, obj, verify_arg)
+        with fs.cwd_guard():
+            if rel_cwd is not None:
+                os.chdir(rel_cwd)
+            res_cli = invoke(fx, case, args, obj, verify_arg)
         cls = classify(res_cli)
         out = os.fsdecode(res_cli.stdout_bytes)
         if ctx.tier == "thorough" and ctx.rng.random() < 0.05:
-            rc, so, se = real_command_line(fx, args + (["--verify", verify_arg] if verify_arg is not None else []) + [obj], fx.stdin if kind == "stdin" else None)
+            rc, so, se = real_command_line(fx, args + (["--verify", verify_arg] if verify_arg is not None else []) + [obj], fx.stdin if kind == "stdin" else None, cwd=rel_cwd)
             ctx.count("real-command-line")
             if rc != res_cli.exit_code or so != res_cli.stdout_bytes:
                 ctx.disagree(case, "in-process runner and the real command line differ", model=[res_cli.exit_code, hx(res_cli.stdout_bytes[:200])], impl=[rc, hx(so[:200])])
